@@ -8,7 +8,9 @@ computeEstimatedSizeAndTotalLinks, updateEstimatedSize, AddChild/addLinkChild, R
 NewBasicDirectory, NewBasicDirectoryFromNode, SetStat, SetSizeEstimationMode), WITH the fix commit
 "unixfs/io: take the Data field size of the block-size estimate from the node's Data".
 
-`varintLen` and `ModePermsToUnixPerms` are the regenerated `Gen.C17` definitions (T-gen `extract ints`).
+`varintLen`, `ModePermsToUnixPerms`, `linkSerializedSize` and `dataFieldSerializedSize` are the regenerated
+`Gen.C17` definitions (T-gen `extract intsqf`: the non-integer inputs `len(c.Bytes())`, `len(name)`,
+`mtime.IsZero()/Unix()/Nanosecond()` are parameters); `nodeDataFieldSize` is transcribed by hand.
 The directory's ProtoNode is represented by its non-cache part (links in the order held, Data bytes);
 its serialized block is `C11.encodePB links data` (C11 proves that this is what RawData() returns for
 every reachable node); the UnixFS Data message written at creation is `C18.folderPBDataWithStat`.
@@ -20,23 +22,15 @@ open Varint
 /-- `varintLen(uint64(v))` (regenerated definition, on naturals) -/
 def varintLen (v : Nat) : Nat := (Gen.C17.varintLen (BitVec.ofNat 64 v)).toNat
 
-/-- `linkSerializedSize(name, cid, tsize)` -/
+/-- `linkSerializedSize(name, cid, tsize)`: the regenerated Go arithmetic over
+(len(c.Bytes()), len(name), tsize), Go `int`/`uint64` = 64-bit -/
 def linkSerializedSize (name cid : Bytes) (tsize : Nat) : Nat :=
-  let cidLen := cid.length
-  let nameLen := name.length
-  let linkLen := 1 + varintLen cidLen + cidLen + 1 + varintLen nameLen + nameLen + 1 + varintLen tsize
-  1 + varintLen linkLen + linkLen
+  (Gen.C17.linkSerializedSize (BitVec.ofNat 64 cid.length) (BitVec.ofNat 64 name.length) (BitVec.ofNat 64 tsize)).toNat
 
-/-- `dataFieldSerializedSize(mode, mtime)` -/
+/-- `dataFieldSerializedSize(mode, mtime)`: the regenerated Go arithmetic over
+(mtime.IsZero(), mtime.Nanosecond(), mtime.Unix(), mode) -/
 def dataFieldSerializedSize (mode : BitVec 32) (t : C18.Time) : Nat :=
-  let inner1 := if mode != 0 then 2 + (1 + varintLen (Gen.C17.modePermsToUnixPerms mode).toNat) else 2
-  let inner2 :=
-    if !t.isZero then
-      let m0 := if t.sec ≥ 0 then 1 + varintLen t.sec.toNat else 1 + 10
-      let m1 := if t.nsec > 0 then m0 + (1 + 4) else m0
-      inner1 + (1 + varintLen m1 + m1)
-    else inner1
-  1 + varintLen inner2 + inner2
+  (Gen.C17.dataFieldSerializedSize t.isZero (BitVec.ofNat 64 t.nsec) (BitVec.ofInt 64 t.sec) mode).toNat
 
 /-- `nodeDataFieldSize(node)` (added by the fix) -/
 def nodeDataFieldSize : Option Bytes → Nat
@@ -55,6 +49,7 @@ structure Dir where
   mode : BitVec 32 := 0             -- d.mode
   mtime : C18.Time := C18.Time.zero -- d.mtime
   estMode : EstMode := .block       -- GetSizeEstimationMode()
+  maxLinks : Int := 0               -- maxLinks (0 = unlimited)
 
 /-- `linksize.LinkSizeFunction` = productionLinkSize -/
 def legacyLinkSize (l : C11.Link) : Nat := l.name.length + l.cid.length
@@ -94,15 +89,22 @@ def removeChild (d : Dir) (name : Bytes) : Dir × Bool :=
     let d1 := updateEst d name (some l) none
     ({ d1 with total := d1.total - 1, links := d1.links.filter fun l => l.name != name }, true)
 
-/-- `AddChild` / `addLinkChild` (maxLinks = 0): remove the old entry, `AddRawLink`, account -/
+/-- `AddChild` / `addLinkChild`: remove the old entry (a new name is refused when `maxLinks` is reached),
+`AddRawLink`, account -/
 def addChild (d : Dir) (name cid : Bytes) (tsize : Nat) : Dir × Bool :=
-  let d1 := (removeChild d name).1
-  let l : C11.Link := ⟨name, cid, tsize⟩
-  if !C11.checkLink l then (d1, false)
+  let r := removeChild d name
+  let d1 := r.1
+  if !r.2 && decide (d1.maxLinks > 0) && decide (d1.total + 1 > d1.maxLinks) then (d1, false)
   else
-    let d2 := { d1 with links := d1.links ++ [l] }
-    let d3 := updateEst d2 name none (some l)
-    ({ d3 with total := d3.total + 1 }, true)
+    let l : C11.Link := ⟨name, cid, tsize⟩
+    if !C11.checkLink l then (d1, false)
+    else
+      let d2 := { d1 with links := d1.links ++ [l] }
+      let d3 := updateEst d2 name none (some l)
+      ({ d3 with total := d3.total + 1 }, true)
+
+/-- `SetMaxLinks` -/
+def setMaxLinks (d : Dir) (n : Int) : Dir := { d with maxLinks := n }
 
 /-- `NewBasicDirectory(WithSizeEstimationMode(m), WithStat(mode, mtime))` -/
 def newDir (m : EstMode) (mode : BitVec 32) (t : C18.Time) : Dir :=
